@@ -462,52 +462,68 @@ def compare_history(suite, ops, mobs, iobs, what=("out", "bcast", "txns", "db"))
     return True
 
 
-# classes of oracle failures -> property
-REPORT_PROPERTY = {
-    0: "C10",
+# which oracle reports speak for which property (report kind as labelled by kvw.check)
+PROPERTY_REPORTS = {
+    "C10": ("coherence", "coherence-walker"),
+    "C07": ("fault", "coherence", "coherence-walker"),
+    "C09": ("replace", "plain"),
+    "C08": ("delete",),
+    "C17": ("gc", "del"),
+    "C06": ("ack",),
+    "KVW": ("coherence", "coherence-walker", "fault", "replace", "plain", "delete", "gc", "del", "ack", "unchanged"),
 }
+# labels that are open findings rather than violations, per property -> classifier name
+FINDING_CLASS = {
+    ("C06", "engine-failure-after-ack"): "kv_engine_failure_after_ack",
+}
+# an engine failure injected by the harness is not a defect of the relay outside C06
+IGNORED = {("C07", "engine-failure-after-ack"), ("C10", "engine-failure-after-ack"), ("KVW", "engine-failure-after-ack")}
 
 
-def oracle_history(suite, ops, iobs, reports, only=None, prefix=""):
+def oracle_history(suite, ops, iobs, reports, prop="KVW"):
     """feed the per-step reports of kvw.check (and the independent walker) to the suite as violations"""
-    ok = True
+    kinds = PROPERTY_REPORTS[prop]
     for i, (op, io, rep) in enumerate(zip(ops, iobs, reports)):
+        labels = [(k, l) for k, l in rep if l != "ok"]
         w = walk_coherent(io["db"])
-        labels = []
-        if rep[0] != "ok":
-            labels.append(("coherence", rep[0]))
-        if w != "ok" and w != rep[0]:
-            labels.append(("coherence-walker", w))
-        for r in rep[1:]:
-            if r != "ok":
-                labels.append(("effect", r))
+        coq_coh = dict(rep).get("coherence")
+        if w != coq_coh:
+            labels.append(("coherence-walker", "walker-says-%s-coq-says-%s" % (w, coq_coh)))
         for kind, lab in labels:
-            if only is not None and not only(kind, lab):
+            if kind not in kinds or (prop, lab) in IGNORED:
                 continue
-            ok = False
-            suite.violate(prefix + lab, {"ops": ops[: i + 1], "step": i}, "%s oracle on the implementation's keyspace after step %d: %s" % (kind, i, lab),
+            cls = FINDING_CLASS.get((prop, lab), "%s:%s" % (kind, lab))
+            suite.violate(cls, {"ops": ops[: i + 1], "step": i, "validators": suite.validators},
+                          "%s oracle on the implementation's keyspace after step %d: %s" % (kind, i, lab),
                           expected="ok", observed=lab)
-            return ok
-    return ok
+            return False
+    return True
 
 
-def run_batch(suite, histories, validators, tier_label="", what=("out", "bcast", "txns", "db"), only=None):
+def run_batch(suite, histories, validators, prop="KVW", what=("out", "bcast", "txns", "db"), iobs=None):
     """run the histories on the implementation and on the model, diff, evaluate the oracles"""
-    iobs = [env.run(run_history(h, validators)) for h in histories]
+    suite.validators = list(validators)
+    if iobs is None:
+        iobs = [env.run(run_history(h, validators)) for h in histories]
     mobs = model_histories(histories)
     reps = check_histories(histories, iobs)
     for h, mo, io, rep in zip(histories, mobs, iobs, reps):
-        nt = sum(1 for b in io if any(t[0] == "commit" and any(m[0] == "delete" for m in t[1]) for t in b["txns"])) > 0
+        nt = any(any(t[0] == "commit" and any(m[0] == "delete" for m in t[1]) for t in b["txns"]) for b in io)
         suite.case({"ops": [brief_op(o) for o in h][:8], "n": len(h)}, nontrivial=nt)
         for op, b in zip(h, io):
             suite.count("op_" + op["op"])
             if op["op"] == "submit":
                 suite.count("submit_" + str(b["out"]))
                 suite.count("kindclass_" + kind_class(op["event"]["kind"]))
+            if op.get("fault") is not None:
+                suite.count("armed_fault")
+            if op.get("kill") is not None:
+                suite.count("armed_kill")
             for t in b["txns"]:
                 suite.count("txn_" + t[0])
+                suite.count("mutations", len(t[1]))
         compare_history(suite, h, mo, io, what)
-        oracle_history(suite, h, io, rep, only=only)
+        oracle_history(suite, h, io, rep, prop)
     return iobs, mobs, reps
 
 
@@ -547,6 +563,9 @@ def corpus():
     out.append(("d-absent-is-empty", "C09", [S(nod100), S(a100), S(e200)]))
     two = mk(0, P, 200, [["d", "a"], ["d"]])
     out.append(("d-second-bare", "C09", [S(a100), S(ab100), S(two)]))
+    bare_first = mk(0, P, 200, [["d"], ["d", "a"]])
+    out.append(("d-first-bare-then-value", "C09", [S(a100), S(e100), S(bare_first)]))
+    out.append(("d-first-bare-candidate", "C09", [S(mk(0, P, 100, [["d"], ["d", "a"]])), S(mk(0, P, 200, [["d", "a"]], content="n")), S(e200)]))
     cand_two = mk(0, P, 100, [["d", "zz"], ["d", "a"]])
     out.append(("d-candidate-second-d", "C09", [S(cand_two), S(mk(0, P, 200, [["d", "a"]]))]))
     R = 10000
@@ -588,12 +607,15 @@ def corpus():
     old = mk(0, R, 100, [["t", "x"]])
     out.append(("reindex-after-replace", "C10", [S(old), S(mk(0, R, 200, [])), {"op": "reindex", "index": "tags", "event": old, "now": 1000}]))
     out.append(("bulk-after-delete", "C10", [S(n1), {"op": "del", "id": n1["id"], "now": 1000}, {"op": "bulk", "index": "kinds", "events": [n1, None], "now": 1000}]))
+    big = mk(0, R, 300, [["t", "ok"], ["t", "v" * 600], ["p", "later"]])
+    out.append(("wadd-oversize-aborts", "C07", [S(old), {"op": "wadd", "event": big, "now": 1000}, S(n2)]))
+    out.append(("wadd-created-2^32-aborts", "C07", [{"op": "wadd", "event": mk(0, 1, 2 ** 32, [["t", "x"]]), "now": 1000}, S(n1)]))
     out.append(("dup-tags-nul-multibyte", "C10", [S(mk(0, 1, 100, [["t", "a"], ["t", "a"], ["é", "ab\x00c"], ["\U0001F600", ""], ["t", "a\x00"]])),
                                                  S(mk(0, 5, 200, [["e", "x"]])), {"op": "gc", "now": T}]))
     return out
 
 
-def suite_corpus(prop=None, signed_default=True):
+def suite_corpus(prop=None, check="KVW"):
     s = Suite("corr:kv-corpus")
     s.rule = ("targeted witnesses of past failures (d-value relations, arrival orders, deletion reference shapes, expiration values around T, "
               "integer / key-size limits, reindex after removal); model vs implementation on every field, plus all oracles")
@@ -601,5 +623,289 @@ def suite_corpus(prop=None, signed_default=True):
     for signed in (True, False):
         hs = [ops for name, p, ops in items if all(o.get("valid", True) == is_valid(o["event"], SIGNED if signed else []) for o in ops if o["op"] == "submit")]
         if hs:
-            run_batch(s, hs, SIGNED if signed else [])
+            run_batch(s, hs, SIGNED if signed else [], prop=check)
     return s
+
+
+# ----------------------------------------------------------------------------- suites
+def suite_submit(tier, seed, prop="KVW", n_quick=220, n_thorough=3000, label="corr:kv-submit"):
+    """random histories over the universes of DESIGN 4.2 / 5.C06 / 5.C10 (signed events, is_signed validator)"""
+    s = Suite(label)
+    s.rule = ("seeded histories (3-14 steps) of add_event / delete_event / collect / get_event / reindex / bulk_update over 3 authors x kinds "
+              "{0,1,3,5,7,10000,19999,20000,29999,30000,30001,39999,40000} x d in {absent,bare,'',a,ab,abc,ue} x timestamps with ties and "
+              "-1,0,2^31,2^32-1,2^32,2^63,2^64 x tags (NUL, multi-byte names, duplicates, bare, 0..600-byte values around the 511-byte key "
+              "limit, expiration values around the clock) x ids mined to start with 00/ff x deletions referencing own/foreign/unknown/malformed/"
+              "upper-case/duplicate ids x resubmissions at any position; real LMDBStorage + WriterThread on the shim vs the extracted model: "
+              "acknowledgement, broadcast flag, per-transaction mutation trace and the whole keyspace after every step; every oracle of the "
+              "property on the implementation's keyspace; non-trivial = some committed transaction deleted keys")
+    rng = rng_for(seed, label)
+    n = n_quick if tier == "quick" else n_thorough
+    hs = [gen_history(rng, rng.randint(3, 14), signed=True) for _ in range(n)]
+    run_batch(s, hs, SIGNED, prop=prop)
+    return s
+
+
+def suite_submit_unsigned(tier, seed, prop="KVW", n_quick=80, n_thorough=800):
+    """same with validators = []: exercises Event.__init__'s created_at 0 -> clock and delegation tags"""
+    s = Suite("corr:kv-submit-novalidators")
+    s.rule = "as corr:kv-submit with validators=[] (created_at 0 replaced by the clock, delegation tags indexed); non-trivial likewise"
+    rng = rng_for(seed, "kv-submit-unsigned")
+    n = n_quick if tier == "quick" else n_thorough
+    hs = [gen_history(rng, rng.randint(3, 12), signed=False) for _ in range(n)]
+    run_batch(s, hs, [], prop=prop)
+    return s
+
+
+def suite_fault(tier, seed, mode, prop="KVW", n_quick=22, n_thorough=200):
+    """every k of every operation: engine failure ("fault") or process kill ("kill") at mutation k"""
+    s = Suite("corr:kv-%s" % mode)
+    s.rule = ("histories of 3-7 operations (events with 0-8 indexable tags, superseding 0-3 older versions, deleting 0-3 events); before each "
+              "operation is let through it is repeated with an injected %s at mutation k = 0,1,2,... until k is beyond its last mutation; "
+              "outcome, trace (begin / mutations / abort|killed|commit) and keyspace compared with the model after every attempt; "
+              "non-trivial = some committed transaction deleted keys" % ("engine exception" if mode == "fault" else "process kill (commit dropped)"))
+    rng = rng_for(seed, "kv-" + mode)
+    n = n_quick if tier == "quick" else n_thorough
+    hs, obs = [], []
+    for _ in range(n):
+        base = gen_fault_history(rng, rng.randint(3, 7))
+        xs, ob = env.run(run_history_all_faults(base, SIGNED, mode))
+        hs.append(xs)
+        obs.append(ob)
+    run_batch(s, hs, SIGNED, prop=prop, iobs=obs)
+    return s
+
+
+def gen_fault_history(rng, n):
+    """adds that supersede / delete several stored events, many indexable tags"""
+    st = {"events": []}
+    ops = []
+    who = rng.choice(AUTHORS)
+    kind = rng.choice([10000, 30000, 0])
+    now = 1000
+    for i in range(n):
+        r = rng.random()
+        if r < 0.45:
+            tags = [["t", "v%d" % j] for j in range(rng.randint(0, 8))] + d_tags(rng.choice([None, "a", "a", ""]))
+            ev = mk(who, kind, rng.choice([100, 101, 102, 103, 200]), tags, content="c%d" % i)
+        elif r < 0.65 and st["events"]:
+            own = [e["id"] for e in st["events"] if e["pubkey"] == env.PUBS[who]]
+            ev = mk(who, 5, 300, [["e", x] for x in rng.sample(own, min(len(own), rng.randint(0, 3)))] + [["e", "zz"]][: rng.randint(0, 1)])
+        elif r < 0.75 and st["events"]:
+            ops.append({"op": "del", "id": rng.choice(st["events"])["id"], "now": now})
+            continue
+        elif r < 0.82:
+            ops.append({"op": "gc", "now": now})
+            continue
+        elif r < 0.88 and st["events"]:
+            ops.append({"op": "reindex", "index": rng.choice(["tags", "ids", "kinds"]), "event": rng.choice(st["events"]), "now": now})
+            continue
+        else:
+            ev = gen_event(rng, st, now)
+        st["events"].append(ev)
+        ops.append({"op": "submit", "event": ev, "valid": is_valid(ev, SIGNED), "now": now})
+    return ops
+
+
+def suite_replace_orders(tier, seed, prop="C09"):
+    """all arrival orders of every <=3 (thorough: <=4)-event subset sharing an author and a kind"""
+    s = Suite("corr:kv-replace-orders")
+    s.rule = ("2 authors x kinds {0,3,1,10000,19999,20000,30000,39999,40000} x d in {absent,bare,'',a,ab,abc,ue} x timestamps {100,100,101,102}: "
+              "every arrival order of every subset of <=3 events (thorough <=4) of one author+kind, plus one foreign-author / other-kind "
+              "bystander that must survive; non-trivial = some committed transaction deleted keys")
+    rng = rng_for(seed, "kv-replace-orders")
+    hs = []
+    kmax = 3 if tier == "quick" else 4
+    for kind in [0, 3, 1, 10000, 19999, 30000, 39999, 40000]:
+        param = 30000 <= kind < 40000
+        dvs = DVALS if param else [None]
+        pool = []
+        for d in dvs:
+            for ts in [100, 100, 101, 102]:
+                pool.append(mk(0, kind, ts, d_tags(d) + [["t", "x"]], content="p%d" % len(pool), want=rng.choice([None, None, 0xFF, 0x00])))
+        bystanders = [mk(1, kind, 50, d_tags("a" if param else None), content="by1"), mk(0, 1 if kind != 1 else 7, 50, [], content="by2")]
+        subsets = []
+        if len(pool) <= 4:
+            for k in range(1, kmax + 1):
+                subsets += list(itertools.combinations(range(len(pool)), k))
+        else:
+            want = 160 if tier == "quick" else 1500
+            for _ in range(want):
+                subsets.append(tuple(rng.sample(range(len(pool)), rng.randint(2, kmax))))
+        for sub in subsets:
+            perms = list(itertools.permutations(sub))
+            if len(pool) > 4:
+                perms = [rng.choice(perms)] if tier == "quick" else perms[:6]
+            for perm in perms:
+                hs.append([S(b) for b in bystanders] + [S(pool[i]) for i in perm])
+    run_batch(s, hs, SIGNED, prop=prop)
+    return s
+
+
+def suite_delete_matrix(tier, seed, prop="C08"):
+    """deletion events referencing every combination of own older / own newer / own same-second / foreign / unknown / malformed /
+    duplicate ids, in enumerated arrival orders"""
+    s = Suite("corr:kv-delete-matrix")
+    s.rule = ("3 authors; a kind-5 event at t=200 referencing a subset of {own older, own newer (t=300), own same second, own at t=199 with id ff.., "
+              "foreign, unknown, non-hex, short, upper-case, duplicate, bare}; every arrival order of the deletion among <=4 (thorough <=5) "
+              "other events; non-trivial = some committed transaction deleted keys")
+    rng = rng_for(seed, "kv-delete-matrix")
+    own_old = mk(0, 1, 100, [["t", "x"]], content="old")
+    own_new = mk(0, 1, 300, [], content="new")
+    own_same = mk(0, 1, 200, [], content="same")
+    own_ff = mk(0, 1, 199, [], content="ff", want=0xFF)
+    own_00 = mk(0, 30000, 199, [["d", "a"]], content="zero", want=0x00)
+    foreign = mk(1, 1, 100, [], content="foreign")
+    pool = {"old": own_old, "new": own_new, "same": own_same, "ff": own_ff, "00": own_00, "foreign": foreign}
+    refs = {"old": ["e", own_old["id"]], "new": ["e", own_new["id"]], "same": ["e", own_same["id"]], "ff": ["e", own_ff["id"]],
+            "00": ["e", own_00["id"]], "foreign": ["e", foreign["id"]], "unknown": ["e", "ab" * 32], "nonhex": ["e", "zz" * 32],
+            "short": ["e", "abc"], "upper": ["e", own_old["id"].upper()], "bare": ["e"], "p": ["p", own_old["id"]]}
+    names = list(refs)
+    hs = []
+    n = 150 if tier == "quick" else 2500
+    for _ in range(n):
+        chosen = rng.sample(names, rng.randint(0, 5))
+        if rng.random() < 0.7:
+            chosen.append(rng.choice(["old", "ff", "00", "same", "new"]))
+        if rng.random() < 0.3 and chosen:
+            chosen.append(rng.choice(chosen))           # duplicate reference
+        dele = mk(0, 5, 200, [refs[c] for c in chosen], content="del%d" % len(hs))
+        present = rng.sample(list(pool), rng.randint(2, 4 if tier == "quick" else 5))
+        seq = [pool[p] for p in present]
+        pos = rng.randint(0, len(seq))
+        seq.insert(pos, dele)
+        hs.append([S(e) for e in seq])
+    # foreign deletion of every event
+    for p, e in pool.items():
+        hs.append([S(e), S(mk(2, 5, 400, [["e", e["id"]]], content="foreign-del"))])
+    run_batch(s, hs, SIGNED, prop=prop)
+    return s
+
+
+def suite_gc(tier, seed, prop="C17"):
+    s = Suite("corr:kv-gc")
+    s.rule = ("collect() under the injected clock T on stores mixing kinds {1,19999,20000,29999,30000} (the ephemeral ones written through the "
+              "writer queue directly) with expiration values {T-1,T,T+1,10^9-1,10^10,'','abc','0123','1e9','-5',absent, two tags}, interleaved "
+              "with further submissions and a second pass; keyspace before/after vs model and the C17 oracle; non-trivial = some commit deleted keys")
+    rng = rng_for(seed, "kv-gc")
+    hs = []
+    n = 120 if tier == "quick" else 1500
+    for _ in range(n):
+        T = rng.choice([1000, 1001, 999999999, 1000000000, 1700000000])
+        vals = [str(T - 1), str(T), str(T + 1), "999999999", "10000000000", "", "abc", "0123", "1e9", "-5", None, "two", "0", str(T - 1) + "\x00"]
+        ops = []
+        for _ in range(rng.randint(1, 6)):
+            k = rng.choice([1, 1, 19999, 20000, 29999, 30000, 25000])
+            v = rng.choice(vals)
+            tags = [] if v is None else ([["expiration", str(T + 5)], ["expiration", str(T - 5)]] if v == "two" else [["expiration", v]])
+            if rng.random() < 0.3:
+                tags.append(["t", "x"])
+            ev = mk(rng.choice(AUTHORS), k, rng.choice([100, 200]), tags, content="g%d" % len(ops))
+            if 20000 <= k < 30000 and rng.random() < 0.7:
+                ops.append({"op": "wadd", "event": ev, "now": T - 10})
+            else:
+                ops.append(S(ev, now=T - 10))
+        ops.append({"op": "gc", "now": T})
+        if rng.random() < 0.5:
+            ops.append(S(mk(0, 1, 300, [["expiration", str(T + 1)]], content="late"), now=T))
+            ops.append({"op": "gc", "now": T + rng.choice([0, 1, 2])})
+        hs.append(ops)
+    run_batch(s, hs, SIGNED, prop=prop)
+    return s
+
+
+def suite_inflight(tier, seed, prop="C06"):
+    """the same event submitted again while its first "add" is still queued (writer held at its transaction lock)"""
+    s = Suite("corr:kv-inflight")
+    s.rule = "a second submission of an event while the writer thread is held before its first transaction; implementation only (oracle)"
+    s.validators = list(SIGNED)
+
+    async def one(ev):
+        d = await Driver(SIGNED).open()
+        try:
+            lock = d.st.db._wlock
+            lock.acquire()
+            outs = []
+            try:
+                for _ in range(2):
+                    try:
+                        _, ok = await d.st.add_event(json.loads(json.dumps(ev)))
+                        outs.append("true" if ok else "duplicate")
+                    except Exception:
+                        outs.append("raise")
+                    outs.append(len(d.bcasts))
+            finally:
+                lock.release()
+            await env.quiesce(d.st)
+            return outs, await d.dump()
+        finally:
+            await d.close()
+    rng = rng_for(seed, "kv-inflight")
+    for i in range(3 if tier == "quick" else 30):
+        ev = mk(rng.choice(AUTHORS), rng.choice([1, 10000, 30000]), 100 + i, [["t", "x"]], content="inflight%d" % i)
+        outs, db = env.run(one(ev))
+        case = {"ops": [S(ev), S(ev)], "held": True}
+        s.case({"event": brief_op(S(ev))["event"], "outs": outs}, nontrivial=True)
+        s.count("second_" + str(outs[2]))
+        if outs[0] == "true" and outs[2] == "true":
+            s.violate("kv_duplicate_in_flight", case, "an event submitted again while its first add is still queued is acknowledged OK=true and broadcast a second time",
+                      expected=["true", 1, "duplicate", 1], observed=outs)
+    return s
+
+
+def suites_all(tier, seed):
+    return [suite_corpus(None, "KVW"), suite_submit(tier, seed, "KVW"), suite_submit_unsigned(tier, seed, "KVW"),
+            suite_fault(tier, seed, "fault", "KVW"), suite_fault(tier, seed, "kill", "KVW"),
+            suite_replace_orders(tier, seed, "KVW"), suite_delete_matrix(tier, seed, "KVW"), suite_gc(tier, seed, "KVW")]
+
+
+def suites_c10(tier, seed):
+    return [suite_corpus(None, "C10"), suite_submit(tier, seed, "C10", label="corr:kv-coherence"),
+            suite_submit_unsigned(tier, seed, "C10"),
+            suite_fault(tier, seed, "fault", "C10", n_quick=10), suite_gc(tier, seed, "C10")]
+
+
+def suites_c07(tier, seed):
+    return [suite_corpus(None, "C07"), suite_submit(tier, seed, "C07", n_quick=120, label="corr:kv-txn-trace"),
+            suite_fault(tier, seed, "fault", "C07"), suite_fault(tier, seed, "kill", "C07")]
+
+
+def suites_c09(tier, seed):
+    return [suite_corpus("C09", "C09"), suite_replace_orders(tier, seed, "C09"), suite_submit(tier, seed, "C09", n_quick=150)]
+
+
+def suites_c08(tier, seed):
+    return [suite_corpus("C08", "C08"), suite_delete_matrix(tier, seed, "C08"), suite_submit(tier, seed, "C08", n_quick=120)]
+
+
+def suites_c17(tier, seed):
+    return [suite_corpus("C17", "C17"), suite_gc(tier, seed, "C17"), suite_submit(tier, seed, "C17", n_quick=100)]
+
+
+def suites_c06(tier, seed):
+    return [suite_corpus("C06", "C06"), suite_submit(tier, seed, "C06"), suite_submit_unsigned(tier, seed, "C06"),
+            suite_fault(tier, seed, "fault", "C06", n_quick=8), suite_inflight(tier, seed, "C06")]
+
+
+# ----------------------------------------------------------------------------- replay
+def replay(payload, prop="KVW"):
+    """re-run the operation sequence of a recorded violation / disagreement on the implementation and re-evaluate the oracles"""
+    v = payload.get("violation") or {}
+    case = v.get("case") or (payload.get("first_disagreements") or [{}])[0].get("case") or {}
+    ops = case.get("ops")
+    if not ops:
+        print("replay: nothing to replay")
+        return 0
+    if case.get("held"):
+        s = suite_inflight("quick", 0)
+        bad = s.violations
+    else:
+        s = Suite("replay")
+        validators = case.get("validators", SIGNED)
+        run_batch(s, [ops], validators, prop=prop)
+        bad = s.violations + s.disagreements
+    for x in s.violations:
+        print("still failing:", x["cls"], x["what"])
+    for x in s.disagreements:
+        print("model/implementation still disagree at step", x["case"].get("step"), "field", x["case"].get("field"))
+    print("replay:", "FAIL" if bad else "pass")
+    return 1 if bad else 0
